@@ -18,6 +18,10 @@ type Opts struct {
 	NoNeg    bool // no unary minus / plus on references, calls, groups
 	NoSubq   bool
 	Simple   bool // minimal payloads (exhaustive clause-subset mode)
+	// SubqDepth is the maximum subquery nesting of SELECT sources (default 2).
+	SubqDepth int
+	// SubqProb is the probability that a source is a subquery (default 0.2).
+	SubqProb float64
 }
 
 // G generates one statement at a time.
